@@ -308,9 +308,18 @@ def run(ch, ctx, fault=None):
             lab = "p0.t%d" % i
             t = k.spawn((lambda p=p, lab=lab: run_program(p, pw.p0, lab)), lab, 0)
             pw.current_proc[t.tid] = pw.p0
-        k.run_tasks()
-        k.tracefunc = None
-        tty.write_hook = None
+        try:
+            k.run_tasks()
+        finally:
+            k.tracefunc = None
+            tty.write_hook = None
+            out._deliver = orig_deliver
+            try:
+                # urwid installs process-wide signal handlers at start(); each screen remembers
+                # the previous one, so a screen that is never stopped pins every earlier world
+                screen.stop()
+            except Exception:
+                pass
         # every task finished?
         for t in k.tasks:
             if t.exc is not None:
